@@ -27,10 +27,10 @@ def generate(rng, tier):
     base = fc.fem_mesh_cases(rng, tier, nt, nq, max_v=30)
     # congruent translated copies (exactly representable offsets)
     for nc in (2, 3, 4, 5):
-        for bname in ("grid22", "grid32", "octa"):
+        for bname in ("grid22", "grid32", "octa") + (("ico",) if nc == 3 else ()):
             for kk in (0, 1):
                 v, t = {"grid22": lambda: gm.grid(2, 2, rng, None, "alt"), "grid32": lambda: gm.grid(3, 2, rng, None, "alt"),
-                        "octa": gm.octahedron}[bname]()
+                        "octa": gm.octahedron, "ico": gm.icosahedron}[bname]()
                 vv, tt = [], []
                 for c in range(nc):
                     off = len(vv)
